@@ -67,6 +67,8 @@ def execute(case, prefix, seed):
     g = grid.Grid(S, nclients=2, chooser=ch, fault_kinds=tuple(case.get("fault_kinds", ())), server_kw=server_kw,
                   client_kw=dict(k=K, n=N, happy=case["happy"], max_segment_size=SEG))
     g.sched.batch = bool(case.get("batch"))     # turn granularity, see grid.Sched.batch
+    if case.get("cpu"):
+        g.sched.cpu_events()     # thread-pool work completes as a scheduled event, see grid.Sched.cpu_events
     viol, obs = [], {}
     try:
         for i, kd in enumerate(kinds):
@@ -213,11 +215,14 @@ def run(tier, seed):
     # the same with every answer that is deliverable at the start of a reactor turn delivered in that turn
     bt = lambda cs: [dict(c, batch=True) for c in cs]
     plan += [(bt(reps[:10]), 1, 0), (bt(reps[:10:3] + reps[-3:]), 0, 1)] if tier == "quick" else [(bt(reps), 1, 0), (bt(reps), 0, 1), (bt(reps[:10]), 1, 1)]
+    # encoding in the thread pool completes as a scheduled event: answers can overtake it (grid.Sched.cpu_events)
+    cp = lambda cs: [dict(c, cpu=True) for c in cs]
+    plan += [(cp(reps[:10:2]), 1, 0)] if tier == "quick" else [(cp(reps), 2, 0), (cp(reps[:10]), 1, 1)]
     desc = []
     for sel, d, f in plan:
         sel = [dict(c, fault_kinds=faults if f else []) for c in sel]
         res.merge(grid.split_tasks(common.pmap, chunk, sel, (seed,), d, f))
-        desc.append("%d grids at d<=%d,f<=%d%s" % (len(sel), d, f, " (several answers per reactor turn)" if sel and sel[0].get("batch") else ""))
+        desc.append("%d grids at d<=%d,f<=%d%s" % (len(sel), d, f, " (several answers per reactor turn)" if sel and sel[0].get("batch") else " (thread-pool completions scheduled)" if sel and sel[0].get("cpu") else ""))
     cov = {
         "states": res.counts.get("executions", 0),
         "transitions": res.counts.get("transitions", 0),
